@@ -361,7 +361,7 @@ pub fn build(c: &FloodCase, n: usize) -> RawCase {
         reqs,
         ops: vec![],
         fault: None,
-        drop_send_request_at_end: false,
+        drop_send_request_at_end: false, nest: vec![]
     };
     RawCase { h2_side: if c.client { Side::Client } else { Side::Server }, base, spec, inject: None, probe_stream: 0, e_out_cap: if c.block_writes { Some(256) } else { None } }
 }
